@@ -10,7 +10,7 @@ from rdflib.namespace import RDF, XSD
 
 BASE = "http://ex.org/dir/doc"
 NSS = {"http://ex.org/ns#": "n", "http://ex.org/dir/": "d", "urn:x:": "u", "http://ex.org/a/b/": "ab"}
-LOCALS = ["a\u00a0b", "a", "b1", "c-d", "e.f", "_g", "1h", "i%20j", "k(l)", "m:n", "o~p", "é", "-y", "a/b", "q?r", "s#t", "", ".z", "x1", "z.", "a..b"]
+LOCALS = ["a\u00a0b", "a", "b1", "c-d", "e.f", "_g", "1h", "i%20j", "k(l)", "m:n", "o~p", "é", "-y", "a/b", "q?r", "s#t", "", ".z", "x1", "z.", "a..b", "uid", "kind"]
 XML_LOCALS = ["a", "b1", "c-d", "e.f", "_g", "x1", "é", "Name"]
 STR = ["", "a", "a b", 'q"t', "it's", "back\\slash", "new\nline", "tab\there", "cr\rx", "é😀", "'''", '"""', 'end"', "end'", "\\", "\u0001", "x\u007fy", " lead", "<&>", "]]>"]
 XML_STR = [s for s in STR if "\u0001" not in s]
@@ -530,7 +530,26 @@ def write_jsonld(rng, content, graphs=None):
             for k in list(n):
                 if k != "@id" and isinstance(n[k], list) and len(n[k]) == 1 and rng.random() < 0.4 and not (isinstance(n[k][0], dict) and "@list" in n[k][0] and False):
                     n[k] = n[k][0]
-        return res
+        return [alias_node(n) for n in res]
+    def has_key(x, keys):
+        if isinstance(x, dict): return any(k in keys for k in x) or any(has_key(v, keys) for v in x.values())
+        if isinstance(x, list): return any(has_key(v, keys) for v in x)
+        return x in keys      # a vocabulary-relative @type value with that spelling would change meaning too
+    def rename(x, m):
+        """rename keyword keys in a node object and in the value objects below it"""
+        if isinstance(x, dict): return {(m.get(k, k) if rng.random() < 0.8 else k): (rename(v, m) if k not in ("@context",) else v) for k, v in x.items()}
+        if isinstance(x, list): return [rename(v, m) for v in x]
+        return x
+    def alias_node(n):
+        if not compact: return n
+        if "id" in ctx: n = rename(n, {"@id": "id", "@type": "type"})
+        if rng.random() < 0.2 and not has_key(n, ("uid", "kind", "@context")):
+            # an embedded context adds further aliases for this node object only; siblings keep reading "uid" as a vocabulary term
+            n = rename(n, {"@id": "uid", "id": "uid", "@type": "kind", "type": "kind"})
+            n = dict({"@context": {"uid": "@id", "kind": "@type"}}, **n)
+        return n
+    if compact and rng.random() < 0.4 and "@vocab" in ctx or compact and rng.random() < 0.2:
+        ctx["id"] = "@id"; ctx["type"] = "@type"
     top = nodes(content)
     if graphs:
         for name, cont in graphs:
@@ -538,5 +557,5 @@ def write_jsonld(rng, content, graphs=None):
             top.append({"@id": gid, "@graph": nodes(cont)})
     doc = top if not compact else {"@context": ctx, "@graph": top}
     if compact and len(top) == 1 and not graphs and rng.random() < 0.5:
-        doc = dict(top[0]); doc["@context"] = ctx
+        doc = dict(top[0]); doc["@context"] = [ctx, doc["@context"]] if "@context" in doc else ctx
     return json.dumps(doc, ensure_ascii=rng.random() < 0.5, indent=rng.choice([None, 1]))
